@@ -59,6 +59,22 @@ chk("C05",
     "TLA+ spec (two formulations checked equal by TLC); spec->impl replay of every TLC-generated case through the real lowering",
     "DESIGN.md §5 C05")
 
+chk("C13",
+    "spec/attrs/Attrs.tla gives the semantics of condition formulas (*, backend names, supports=f, not/any/all incl. empty) and of "
+    "what a disable/rename placed on a module, type, impl block or method reaches. A stack-machine builder lets TLC enumerate "
+    "every formula of <=3 (quick) / <=5 (thorough, small alphabet) construction steps and -simulate deeper ones (depth>=3); "
+    "algebraic invariants (De Morgan, double negation) are checked on each, a negative model (any() looking at one operand) is "
+    "refuted. Each formula with its per-backend truth value is replayed through the real attribute parser and satisfies_cfg. "
+    "End to end, for disable and rename at each of the 4 placements and sampled formulas, all 7 backends are run by the real "
+    "binary: the output tree must be byte-identical to the unconditional-attribute output iff the formula holds for that backend "
+    "and to the attribute-free output otherwise; disabled items' files and symbol references must be absent, renames rendered in "
+    "cpp/js/dart/nanobind and never inherited module->method; nm of the compiled crate shows every function still exported.",
+    "Backend name sets are fixed from the book and checked against the probe; option/callbacks/traits/static_slices support "
+    "is cross-checked against observed acceptance behaviour; other support flags are taken from the probe. demo_gen's bundled "
+    "js/ subtree is the js backend's output and follows the js truth value.",
+    "TLA+ spec + TLC enumeration/simulation; spec->impl replay in-process and through the diplomat-tool binary",
+    "DESIGN.md §5 C13")
+
 NOT_YET = {}
 
 
